@@ -215,21 +215,49 @@ def extract_wf_on_task_event():
 
 
 def extract_wf_on_workflow_event():
-    table = {}
+    raw = {}
     calls = 0
     for wf in ALL:
         for req in ALL:
-            for active, staged, paused in itertools.product([False, True], repeat=3):
-                b = {"active": active, "staged": staged, "paused": paused}
+            for active, staged, paused, unreach in itertools.product([False, True], repeat=4):
+                b = {"active": active, "staged": staged, "paused": paused, "unreach": unreach}
                 s = Stub(wf, collections.defaultdict(lambda: _boom(), b))
 
                 def f():
                     m.WorkflowStateMachine.process_event(s, ev.WorkflowExecutionEvent(req))
                     return ("ok", s.status)
 
-                table[(wf, req, active, staged, paused)] = run(f)
+                r = run(f)
+                raw[(wf, req, active, staged, paused, unreach)] = (r, tuple(x[0] for x in s.log))
                 calls += 1
-    return table, calls
+    table = {}
+    check = {}
+    for (wf, req, a, st_, p, u), (r, log) in raw.items():
+        if not u:
+            if log:
+                raise ExtractionError("error logged without unreachable barrier at %r" % ((wf, req, a, st_, p),))
+            table[(wf, req, a, st_, p)] = r
+    for (wf, req, a, st_, p, u), (r, log) in raw.items():
+        if not u:
+            continue
+        base = table[(wf, req, a, st_, p)]
+        if base[0] != "ok":
+            if r != base or log:
+                raise ExtractionError("unreachable check on a raising request %r" % ((wf, req, a, st_, p),))
+            continue
+        s2 = base[1]
+        fired = r == ("ok", "failed") and log == ("UnreachableJoinError",)
+        quiet = r == base and log == ()
+        if not (fired or quiet):
+            raise ExtractionError("unreachable handling of requests does not factor at %r: %r %r" % ((wf, req, a, st_, p), r, log))
+        if s2 == wf:
+            if not quiet:
+                raise ExtractionError("unreachable check fired without a status change at %r" % ((wf, req, a, st_, p),))
+            continue
+        if s2 in check and check[s2] != fired:
+            raise ExtractionError("request unreachable check is not a function of the new status at %r" % ((wf, req, a, st_, p),))
+        check[s2] = fired
+    return table, check, calls
 
 
 def _boom():
@@ -514,7 +542,7 @@ def main():
       "   else if staged || next then .incomplete else .completed)\n")
 
     # ---- wfOnWorkflowEvent
-    we, calls = extract_wf_on_workflow_event()
+    we, req_unreach_check, calls = extract_wf_on_workflow_event()
     stats["wfOnWorkflowEvent_calls"] = calls
     for wf in ALL:
         kv = {}
@@ -530,6 +558,13 @@ def main():
     for wf in ALL:
         w("  | %s => wfOnWorkflowEvent_%s req active staged paused" % (lst(wf), CTOR[wf]))
     w("")
+    w("/-- statuses for which a status change to them *by a status request* triggers the unreachable-join check. -/")
+    w("def wfReqUnreachCheck : Status → Bool")
+    for s_ in ALL:
+        if req_unreach_check.get(s_, False):
+            w("  | %s => true" % lst(s_))
+    w("  | _ => false\n")
+    stats["req_unreach_check"] = sorted(s_ for s_, v in req_unreach_check.items() if v)
     tv = extract_wf_transition_valid()
     kv = {(lst(a), lst(b)): lbool(v) for (a, b), v in tv.items()}
     rows, default = compress(kv, 2)
